@@ -6,7 +6,8 @@
     Go code followed:
       sql/mysql/migrate_oss.go    : state.{addTable, dropTable, modifyTable, alterTable,
                                     renameTable, fks}, skipAutoChanges
-      sql/postgres/migrate_oss.go : state.{addTable, dropTable, modifyTable, alterTable,
+      sql/postgres/migrate_oss.go : state.{addTable, dropTable, modifyTable, alterTable, alterColumn,
+                                    alterType (createDropSeq),
                                     renameTable, addComments, tableComment, columnComment,
                                     indexComment, dropIndexes, addIndexes, alterEnum, fks,
                                     createDropEnum, enumIdent}, topLevel (RenameObject),
@@ -16,12 +17,15 @@
     Modelled fragment (the tie generates exactly this):
       top level : AddTable, DropTable, RenameTable; PG: AddObject / DropObject / ModifyObject
                   (values appended) / RenameObject of enum types
-      ModifyTable sub-changes : AddColumn, DropColumn, RenameColumn, AddIndex, DropIndex,
-                  RenameIndex, AddForeignKey, DropForeignKey, AddCheck, DropCheck,
+                  (code with the C16 repairs: enumIdent in RenameObject, schemaPrefix for every DROP INDEX)
+      ModifyTable sub-changes : AddColumn, DropColumn, ModifyColumn (type incl. enum and
+                  int -> serial with its sequence statements, null, default, comment), RenameColumn,
+                  AddIndex, DropIndex, ModifyIndex, RenameIndex, AddForeignKey, DropForeignKey,
+                  ModifyForeignKey, AddCheck, DropCheck, ModifyCheck, Add/Drop/ModifyPrimaryKey,
                   AddAttr / ModifyAttr of a table comment
-    Not modelled: keywords, plain identifiers (columns, constraint names, new names), literals;
-    ModifyColumn / ModifyIndex / ModifyForeignKey / ModifyCheck / primary-key changes (they are
-    exercised by the oracle-only stage [plan]); statement ORDER between changes
+    Not modelled: keywords, plain identifiers (columns, constraint names, new names), literals
+    (the sequence name inside nextval('...') is a literal); serial -> other type changes,
+    generated columns, identity attributes; statement ORDER between changes
     (DetachCycles / SortChanges are M-SORT): statements are compared as a multiset. *)
 From Coq Require Import List NArith Bool.
 From Atlas Require Import Base.Bytes Qual.Builder.
@@ -34,8 +38,12 @@ Inductive ref :=
 | RTableRes (t : obj) (r : bytes)                (* Builder.TableResource *)
 | RSchemaRes (s : option bytes) (n : bytes)      (* Builder.SchemaResource *)
 | RType (ns : option bytes) (n : bytes)          (* state.typeIdent *)
-| RPrefixed (ns : option bytes) (n : bytes)      (* state.schemaPrefix(ns) + Ident(n) *)
-| RBare (n : bytes).                             (* Builder.Ident: no qualifying call *)
+| RPrefixed (ns : option bytes) (n : bytes)      (* state.schemaPrefix(ns) + Ident(n) / %q *)
+| RPrefixedCol (ns : option bytes) (t c : bytes) (* state.schemaPrefix(ns) + %q.%q (OWNED BY) *)
+| RBare (n : bytes)                              (* Builder.Ident of an EXISTING object: no qualifying call
+                                                    (no statement form uses it: RefSkeletonProofs) *)
+| RNew (n : bytes).                              (* Builder.Ident of a NEW name (ALTER TYPE ... RENAME TO n):
+                                                    a definition, bare by SQL syntax, not a reference *)
 
 (* the identifier chain a reference is written as under qualifier [q] *)
 Definition ref_chain (q : option bytes) (r : ref) : list bytes :=
@@ -45,7 +53,9 @@ Definition ref_chain (q : option bytes) (r : ref) : list bytes :=
   | RSchemaRes s n => chain_of q s n []
   | RType ns n => qual_prefix q ns ++ [n]
   | RPrefixed ns n => qual_prefix q ns ++ [n]
+  | RPrefixedCol ns t c => qual_prefix q ns ++ [t; c]
   | RBare n => [n]
+  | RNew n => [n]
   end.
 
 Record stmt := mkStmt { s_rev : bool; s_head : bytes; s_refs : list ref }.
@@ -62,7 +72,14 @@ Inductive sub :=
 | AddColumn (c : col) | DropColumn (c : col) | RenameColumn
 | AddIndex (i : idx) | DropIndex (i : idx) | RenameIndex (from to : bytes)
 | AddForeignKey (f : fk) | DropForeignKey (f : fk)
-| AddCheck (named : bool) | DropCheck
+| AddCheck (named : bool) | DropCheck | ModifyCheck
+| ModifyColumn (to_name : bytes) (from_enum to_enum : option (option bytes * bytes))
+               (ty to_serial other comment : bool)
+    (* ty = ChangeType, other = ChangeNull / ChangeDefault, comment = ChangeComment;
+       to_serial: the new type is a SerialType (the old one is not) *)
+| ModifyIndex (from to : idx) (parts comment : bool)
+| ModifyForeignKey (from to : fk)
+| AddPrimaryKey | DropPrimaryKey | ModifyPrimaryKey
 | TableComment.                                   (* AddAttr / ModifyAttr of schema.Comment *)
 
 Inductive change :=
@@ -70,7 +87,7 @@ Inductive change :=
 | ModifyTable (t : tab) (subs : list sub)
 | AddObject (ns : option bytes) (n : bytes) | DropObject (ns : option bytes) (n : bytes)
 | ModifyObject (ns : option bytes) (n : bytes) (added : nat)
-| RenameObject (from to : bytes).
+| RenameObject (ns_from : option bytes) (from : bytes) (ns_to : option bytes) (to : bytes).
 
 (* statement heads (first two keywords), as bytes *)
 Definition h_create_table : bytes := [67;82;69;65;84;69;32;84;65;66;76;69].
@@ -84,6 +101,8 @@ Definition h_comment_on : bytes := [67;79;77;77;69;78;84;32;79;78].
 Definition h_create_type : bytes := [67;82;69;65;84;69;32;84;89;80;69].
 Definition h_drop_type : bytes := [68;82;79;80;32;84;89;80;69].
 Definition h_alter_type : bytes := [65;76;84;69;82;32;84;89;80;69].
+Definition h_create_sequence : bytes := [67;82;69;65;84;69;32;83;69;81;85;69;78;67;69].
+Definition h_drop_sequence : bytes := [68;82;79;80;32;83;69;81;85;69;78;67;69].
 
 Definition mem (x : bytes) (l : list bytes) : bool := existsb (bytes_eqb x) l.
 
@@ -98,9 +117,8 @@ Definition cmd (h : bytes) (rs : list ref) : stmt := mkStmt false h rs.
 Definition rev_of (s : stmt) : stmt := mkStmt true (s_head s) (s_refs s).
 
 (** * postgres: addIndexes / dropIndexes / comments *)
-(* addIndexes: CREATE INDEX name ON Table(t); reverse DROP INDEX [schemaPrefix if t.Schema != nil] name *)
-Definition pg_drop_index_ref (t : obj) (i : idx) : ref :=
-  match o_schema t with Some _ => RPrefixed (o_schema t) (i_name i) | None => RBare (i_name i) end.
+(* addIndexes: CREATE INDEX name ON Table(t); reverse DROP INDEX schemaPrefix(t.Schema) name *)
+Definition pg_drop_index_ref (t : obj) (i : idx) : ref := RPrefixed (o_schema t) (i_name i).
 Definition pg_add_index (t : obj) (i : idx) : list stmt :=
   [cmd h_create_index [RTable t]; mkStmt true h_drop_index [pg_drop_index_ref t i]].
 Definition pg_drop_index (t : obj) (i : idx) : list stmt :=
@@ -166,19 +184,23 @@ Definition alter_fwd (pg : bool) (s : sub) : list ref :=
   match s with
   | AddColumn c => col_refs pg c
   | AddForeignKey f => fk_refs f
+  | ModifyColumn _ _ te ty ser _ _ =>          (* alterType: TYPE enumIdent(To) *)
+      if pg && ty && negb ser then match te with Some (ns, n) => [RType ns n] | None => [] end else []
   | _ => []
   end.
 Definition alter_bwd (pg : bool) (s : sub) : list ref :=
   match s with
   | DropColumn c => col_refs pg c
   | DropForeignKey f => fk_refs f
+  | ModifyColumn _ fe _ ty ser _ _ =>          (* reverse ModifyColumn{From: To, To: From}: TYPE enumIdent(From) *)
+      if pg && ty && negb ser then match fe with Some (ns, n) => [RType ns n] | None => [] end else []
   | _ => []
   end.
 Definition irreversible (s : sub) : bool := match s with AddCheck false => true | _ => false end.
 
 (* postgres alterTable: sort.SliceStable, constraint drops first *)
 Definition dropConst (s : sub) : bool :=
-  match s with DropIndex _ | DropForeignKey _ | DropCheck => true | _ => false end.
+  match s with DropIndex _ | DropForeignKey _ | DropCheck | DropPrimaryKey => true | _ => false end.
 Definition pg_sorted (l : list sub) : list sub := filter dropConst l ++ filter (fun s => negb (dropConst s)) l.
 
 Definition alter_stmts (pg : bool) (head : ref) (l : list sub) : list stmt :=
@@ -190,29 +212,81 @@ Definition alter_stmts (pg : bool) (head : ref) (l : list sub) : list stmt :=
        else [mkStmt true h_alter_table (head :: flat_map (alter_bwd pg) (rev l))])
   end.
 
-(* mysql: one ALTER TABLE SchemaResource(t.Schema, name) with every clause *)
-Definition mysql_modify_table (t : tab) (subs : list sub) : list stmt :=
-  alter_stmts false (RSchemaRes (o_schema (t_obj t)) (o_name (t_obj t))) (skip_auto false subs).
-
-(* postgres: which sub-changes go into the ALTER TABLE statement *)
-Definition pg_in_alter (s : sub) : bool :=
+(* mysql modifyTable: two ALTER TABLE SchemaResource(t.Schema, name) statements: first the drops
+   a ModifyForeignKey / ModifyIndex is split into, then everything else *)
+Definition mysql_group0 (s : sub) : list sub :=
   match s with
-  | AddColumn _ | DropColumn _ | AddForeignKey _ | DropForeignKey _ | AddCheck _ | DropCheck => true
-  | AddIndex i | DropIndex i => i_uconst i
-  | _ => false
+  | ModifyForeignKey from _ => [DropForeignKey from; DropIndex (mkIdx [] [] false false)]
+      (* + DropIndex{Name: From.Symbol} (Change.Is(ChangeRefTable|ChangeRefColumn)) *)
+  | ModifyIndex from _ _ _ => [DropIndex from]
+  | _ => []
+  end.
+Definition mysql_group1 (s : sub) : sub :=
+  match s with
+  | ModifyForeignKey _ to => AddForeignKey to
+  | ModifyIndex _ to _ _ => AddIndex to
+  | s => s
+  end.
+Definition mysql_modify_table (t : tab) (subs : list sub) : list stmt :=
+  let head := RSchemaRes (o_schema (t_obj t)) (o_name (t_obj t)) in
+  let l := skip_auto false subs in
+  alter_stmts false head (flat_map mysql_group0 l) ++ alter_stmts false head (map mysql_group1 l).
+
+(* postgres modifyTable: what each sub-change appends to the [alter] list *)
+Definition pg_alter_items (s : sub) : list sub :=
+  match s with
+  | AddColumn _ | DropColumn _ | AddForeignKey _ | DropForeignKey _ | AddCheck _ | DropCheck
+  | ModifyCheck | AddPrimaryKey | DropPrimaryKey => [s]
+  | AddIndex i | DropIndex i => if i_uconst i then [s] else []
+  | ModifyPrimaryKey => [DropPrimaryKey; AddPrimaryKey]
+  | ModifyIndex from to parts _ =>
+      if parts then (if i_uconst from then [DropIndex from] else []) ++ (if i_uconst to then [AddIndex to] else [])
+      else []
+  | ModifyForeignKey from to => [DropForeignKey from; AddForeignKey to]
+  | ModifyColumn _ _ _ ty _ other _ => if ty || other then [s] else []
+  | _ => []
+  end.
+
+Definition us : bytes := [95].                      (* "_" *)
+Definition seq_suffix : bytes := [95;115;101;113].  (* "_seq" *)
+(* SerialType.sequence: <table>_<column>_seq *)
+Definition seq_name (t c : bytes) : bytes := t ++ us ++ c ++ seq_suffix.
+
+(* alterType, "sequence was added": changeGroup.before = CREATE SEQUENCE IF NOT EXISTS
+   <prefix><seq> OWNED BY <prefix><t>.<c> / reverse DROP SEQUENCE IF EXISTS <prefix><seq> *)
+Definition pg_sequence_stmts (o : obj) (s : sub) : list stmt :=
+  match s with
+  | ModifyColumn c _ _ true true _ _ =>
+      [cmd h_create_sequence [RPrefixed (o_schema o) (seq_name (o_name o) c); RPrefixedCol (o_schema o) (o_name o) c];
+       mkStmt true h_drop_sequence [RPrefixed (o_schema o) (seq_name (o_name o) c)]]
+  | _ => []
   end.
 
 Definition pg_modify_table (t : tab) (subs : list sub) : list stmt :=
   let o := t_obj t in
   let l := skip_auto true subs in
-  flat_map (fun s => match s with DropIndex i => if i_uconst i then [] else pg_drop_index o i | _ => [] end) l
-  ++ alter_stmts true (RTable o) (pg_sorted (filter pg_in_alter l))
-  ++ flat_map (fun s => match s with AddIndex i => if i_uconst i then [] else pg_add_index o i | _ => [] end) l
+  let alter := pg_sorted (flat_map pg_alter_items l) in
+  flat_map (fun s =>
+      match s with
+      | DropIndex i => if i_uconst i then [] else pg_drop_index o i
+      | ModifyIndex from _ true _ => if i_uconst from then [] else pg_drop_index o from
+      | _ => []
+      end) l
+  ++ flat_map (pg_sequence_stmts o) alter
+  ++ alter_stmts true (RTable o) alter
+  ++ flat_map (fun s =>
+      match s with
+      | AddIndex i => if i_uconst i then [] else pg_add_index o i
+      | ModifyIndex _ to true _ => if i_uconst to then [] else pg_add_index o to
+      | _ => []
+      end) l
   ++ flat_map (fun s =>
        match s with
        | TableComment => pg_table_comment o
        | AddIndex i => if i_comment i then pg_index_comment o i else []
+       | ModifyIndex _ to _ true => pg_index_comment o to
        | AddColumn c => if c_comment c then pg_column_comment o c else []
+       | ModifyColumn c _ _ _ _ _ true => both h_comment_on [RTableRes o c]
        | RenameColumn => both h_alter_table [RTable o]
        | RenameIndex from to =>
            [cmd h_alter_index [RSchemaRes (o_schema o) from]; mkStmt true h_alter_index [RSchemaRes (o_schema o) to]]
@@ -232,8 +306,8 @@ Definition plan_change (pg : bool) (c : change) : list stmt :=
   | AddObject ns n => [cmd h_create_type [RType ns n]; mkStmt true h_drop_type [RType ns n]]
   | DropObject ns n => [cmd h_drop_type [RType ns n]; mkStmt true h_create_type [RType ns n]]
   | ModifyObject ns n added => repeat_stmt added (cmd h_alter_type [RType ns n])
-  | RenameObject from to =>
-      [cmd h_alter_type [RBare from; RBare to]; mkStmt true h_alter_type [RBare to; RBare from]]
+  | RenameObject nsf from nst to =>   (* ALTER TYPE enumIdent(e1) RENAME TO Ident(e2.T) *)
+      [cmd h_alter_type [RType nsf from; RNew to]; mkStmt true h_alter_type [RType nst to; RNew from]]
   end.
 
 Definition plan_skel (pg : bool) (cs : list change) : list stmt := flat_map (plan_change pg) cs.
